@@ -42,7 +42,7 @@ _CFG = {
     "C01": {"scenarios": ["fold", "term"], "streams": [PTRACE], "trusted": RUNTIME_TRUST},
     "C02": {"scenarios": ["cmds"], "streams": [PTRACE], "trusted": RUNTIME_TRUST},
     "C03": {"scenarios": ["seq"], "trusted": RUNTIME_TRUST},
-    "C04": {"scenarios": ["term", "pty"], "streams": [LIFE], "trusted": RUNTIME_TRUST},
+    "C04": {"scenarios": ["term", "pty"], "streams": [LIFE, READER], "trusted": RUNTIME_TRUST},
     "C05": {"scenarios": ["modes", "exec", "pty"], "streams": [GLUE], "trusted": RENDER_TRUST},
     "C06": {"streams": [RENDER, VT], "rule": RENDER_RULE, "trusted": RENDER_TRUST},
     "C07": {"streams": [RENDER], "scenarios": ["final"], "rule": RENDER_RULE, "trusted": RENDER_TRUST},
@@ -57,7 +57,7 @@ _CFG = {
     "C15": {"streams": [READER], "rule": INPUT_RULE, "trusted": INPUT_TRUST},
     "C16": {"scenarios": ["filter"], "streams": [PTRACE], "trusted": RUNTIME_TRUST},
     "C17": {"scenarios": ["exec"], "streams": [GLUE], "trusted": RENDER_TRUST + ["input hand-over to the exec'd command depends on cancelreader/epoll semantics: observed on an os.Pipe, not proved"]},
-    "C18": {"scenarios": ["pty", "term"], "trusted": RUNTIME_TRUST + ["kernel signal delivery, os/signal.Notify, TIOCGWINSZ/SIGWINCH are outside the model: observed on a pty, not proved"]},
+    "C18": {"scenarios": ["pty", "term", "sigexec"], "trusted": RUNTIME_TRUST + ["kernel signal delivery, os/signal.Notify, TIOCGWINSZ/SIGWINCH are outside the model: observed on a pty, not proved"]},
     "C19": {"streams": [RENDER, {"name": "fps", "quick": 2000, "thorough": 100000}], "rule": RENDER_RULE, "trusted": RENDER_TRUST},
     "C20": {"streams": [{"name": "every", "quick": 6000, "thorough": 200000}], "scenarios": ["timing"],
             "rule": "every: Every's delay expression evaluated by Go's time package vs the Lean model on boundary instants (+-1ns), zero/negative/huge durations and seeded random instants; timing: real Tick/Every commands. distinct = distinct (instant, duration) lines; non-trivial = positive duration",
